@@ -33,7 +33,7 @@ func (c09) Info(t core.Tier) core.Info {
 	}
 }
 
-func (c09) NumCases(t core.Tier) int { return tierN(t, 900, 40000) }
+func (c09) NumCases(t core.Tier) int { return tierN(t, 6000, 80000) }
 
 // permuteMaps deep-copies input data, inserting map keys in a random order.
 func permuteMaps(r *rng.Rand, data any) any {
